@@ -19,6 +19,8 @@ type FuncReport struct {
 	Havocs    []string          `json:"havocked_calls,omitempty"`
 	Notes     []string          `json:"notes,omitempty"`
 	Assumes   []string          `json:"assumes,omitempty"`
+	Key       string            `json:"-"` // contract key, as it appears in #pre[<key>:...] obligations of callers
+	Requires  []string          `json:"-"` // the requires clauses (label: text)
 	Errors    []string          `json:"errors,omitempty"`
 	Observe   map[string]string `json:"-"`
 	NumObs    int               `json:"obligations"`
@@ -102,6 +104,10 @@ func loopOrdinals(body *ast.BlockStmt) map[ast.Node]int {
 // VerifyFunc generates the obligations of one function under contract.
 func (p *Program) VerifyFunc(ct *Contract) *FuncReport {
 	rep := &FuncReport{Func: ct.PkgName + "." + ct.Key, Contract: fmt.Sprintf("%s:%d", shortFile(ct.File), ct.Line), Assumes: ct.Assumes}
+	rep.Key = ct.Key
+	for _, rq := range ct.Requires {
+		rep.Requires = append(rep.Requires, fmt.Sprintf("[%s] %s", rq.Label, rq.Text))
+	}
 	fi := p.findFunc(ct)
 	var lit *ast.FuncLit
 	if fi == nil {
